@@ -1087,9 +1087,10 @@ def gen_C10(r, n):
         if k == 2:
             return (float(r.rng(-8, 8)), 0.0)
         return tf_in(r, -300, 300)
-    for _ in range(n):
-        a, b = operand(), operand()
-        if r.below(5) == 0:
+    fixed = [((1.7976931348623157e308, 0.0), (-3 * 2.0 ** 970, 0.0)), ((1.7976931348623157e308, 0.0), (3 * 2.0 ** 970, 0.0))]     # |hi| = f64::MAX: spurious overflow inside 2Sum (known finding)
+    for it in range(n + len(fixed)):
+        a, b = fixed[it - n] if it >= n else (operand(), operand())
+        if it < n and r.below(5) == 0:
             b = cancel_partner(r, a) if fp.is_valid(*a) else b
         f = r.choice([b[0], fp.any_f64(r), float(r.rng(-4, 4))])
         gid += 1
@@ -1151,6 +1152,10 @@ def gen_C10(r, n):
         gid += 1
     return c
 
+MAX_WORDS = ('7fefffffffffffff', 'ffefffffffffffff')
+def has_max_word(line):
+    return any(w in MAX_WORDS for w in line.split()[1:])
+
 def only_zero_sign(x, y):
     """two answers differ only in the sign bit of words that are zero"""
     wx, wy = x.split(), y.split()
@@ -1174,9 +1179,12 @@ def chk_C10(c, ans):
         for i in idxs[1:]:
             if ans[i] != ref:
                 clause = {'trait': 'trait_vs_inherent', 'sum': 'sum_eq_fold', 'neg': 'neg_forms'}.get(g[1], 'forms_%s_%s' % (g[1], g[2]))
+                f_ = fail(i, clause, '%s gives %s but %s gives %s' % (c.lines[idxs[0]].split()[0], ref, c.lines[i].split()[0], ans[i]))
                 if c.meta[i]['role'] == 'comm':
-                    clause = 'commutative_%s_%s' % (g[1], g[2])
-                out.append(fail(i, clause, '%s gives %s but %s gives %s' % (c.lines[idxs[0]].split()[0], ref, c.lines[i].split()[0], ans[i])))
+                    f_['clause'] = 'commutative_%s_%s' % (g[1], g[2])
+                    if has_max_word(c.lines[i]):
+                        f_['key'] = 'commutative_add:max-spurious-overflow'
+                out.append(f_)
     return out
 
 def round2_C10(c, ans):
@@ -1197,7 +1205,7 @@ def round2_C10(c, ans):
             continue
         nb = words(negb[1]); na = words(nega[1])
         c2.add('%s %s %s' % (TT('Add'), w2(a), w2(nb)), want=amb[1], clause='sub_eq_add_neg')
-        c2.add('%s %s' % (NEG, w2(words(bma[1]))), want=amb[1], clause='neg_sub_swap')
+        c2.add('%s %s' % (NEG, w2(words(bma[1]))), want=amb[1], clause='neg_sub_swap', maxw=has_max_word('x ' + w2(a) + ' ' + w2(b)))
         c2.add('%s %s %s' % (TT('Mul'), w2(na), w2(b)), want=None, other=w2(words(ab[1])), clause='neg_mul')
         c2.add('%s %s' % (NEG, w2(na)), want=w2(a), clause='neg_neg')
         # mul_add(a, b) == self*a + b
@@ -1216,6 +1224,8 @@ def chk_round2_C10(c2, ans):
         if m['want'] is not None and a != m['want']:
             if only_zero_sign(a, m['want']):
                 out.append(dict(fail(i, cl, 'differs in the sign of a zero word: %s vs %s' % (a, m['want'])), key=cl + ':zero-sign'))
+            elif m.get('maxw') and cl in ('neg_sub_swap',):
+                out.append(dict(fail(i, cl, 'spurious overflow of 2Sum at |hi| = f64::MAX: %s vs %s' % (a, m['want'])), key=cl + ':max-spurious-overflow'))
             else:
                 out.append(fail(i, cl, 'got %s want %s' % (a, m['want'])))
     return out
@@ -1698,6 +1708,13 @@ def gen_C15(r, n, thorough=False):
             x = tf_near(r, Fr(1), 2)                       # dense around 1, where the result changes sign
         else:
             x = tf_near(r, Fr(2) ** r.rng(-20, 20), 20)
+        if r.below(4) == 0:
+            # arguments whose logarithm sits next to a reduction boundary of exp (k/2 + 1/4): the Newton steps of ln evaluate
+            # exp(-ln x) right there
+            m_ = mp()
+            q_ = (m_.mpf(r.rng(0, 1300)) / 2 + m_.mpf(1) / 4) * r.choice([1, -1]) + m_.mpf(r.choice([1, -1])) * m_.mpf(2) ** (-r.rng(30, 60)) * r.rng(1, 7)
+            if -690 < q_ < 660:
+                x = tf_of_fr(mpf_to_fr(m_.exp(q_)))
         for fn in ('ln', 'log2', 'log10'):
             c.add('TwoFloat.%s %s' % (fn, w2(x)), kind=fn, x=x)
         c.add('TwoFloat.log2 %s' % w2((math.ldexp(1.0, r.rng(-1000, 960)), 0.0)), kind='log2_pow2')
@@ -1892,6 +1909,9 @@ def gen_C17(r, n):
         a, b = log_uniform_tf(r, -30, 30), log_uniform_tf(r, -30, 30)
         c.add('TwoFloat.atan2 %s %s' % (w2(a), w2(b)), kind='atan2', y=a, x=b)
         out_ = tf_of_fr((1 + abs(Fr(r.rng(1, 2**30), 2 ** r.rng(1, 60)))) * r.choice([1, -1]))
+        if r.below(2):
+            # barely outside: |x| = 1 + 2^-j for j up to 300 (the excess lives entirely in the low word)
+            out_ = tf_of_fr((1 + Fr(r.rng(2**20, 2**21), 2 ** (20 + r.rng(1, 300)))) * r.choice([1, -1]))
         c.add('TwoFloat.asin %s' % w2(out_), kind='dom', x=out_)
         c.add('TwoFloat.acos %s' % w2(out_), kind='dom', x=out_)
     Z = [(0.0, 0.0), (-0.0, 0.0)]
